@@ -609,6 +609,7 @@ func (am *AccountingManager) processPendingRecord(record *PendingAcctRecord) {
 		switch record.Request.StatusType {
 		case AcctStatusStop:
 			atomic.AddUint64(&am.stopTotal, 1)
+			am.verifCrashPoint(8, record.Request.SessionID)
 			// The Stop is acknowledged: drop the persisted session that StopSession kept
 			// for crash recovery (unless the id is in use by an active session again).
 			am.sessionsMu.RLock()
